@@ -15,6 +15,8 @@ Lemma s32_sm x : - B30 <= x <= B30 -> s32 x = x.
 Proof. intros H. apply s32_id. unfold in_s32, M32. unfold B30 in H. change (2 ^ 30) with 1073741824 in H. lia. Qed.
 Lemma u64_sm x : 0 <= x < 2 ^ 62 -> u64 x = x.
 Proof. intros H. apply u64_id. unfold M64. change (2 ^ 62) with 4611686018427387904 in H. lia. Qed.
+Lemma u64_ex x : 0 <= x < 2 ^ 64 -> u64 x = x.
+Proof. intros H. apply u64_id. unfold M64. change (2 ^ 64) with 18446744073709551616 in H. exact H. Qed.
 Lemma z2b_b2z b : z2b (b2z b) = b.
 Proof. destruct b; reflexivity. Qed.
 Ltac tup := repeat match goal with |- (_, _) = (_, _) => apply f_equal2 end.
@@ -118,22 +120,26 @@ Proof. repeat split; reflexivity. Qed.
 
 (* slot i of the collecting buffer is at byte offset i * datasize; the combination of level l with stride 2^shift applies
    reduce_fn (sendbuf = slot (2 i + 1) * 2^shift, recvbuf = slot (2 i) * 2^shift): the model's a2a_inner *)
-Lemma gen_a2a_offsets i shift sz allcount request : 0 <= i -> 0 <= shift <= 30 -> (2 * i + 1) * 2 ^ shift <= B30 -> 0 <= sz -> (2 * i + 1) * 2 ^ shift * sz < 2 ^ 62 ->
-  0 <= allcount <= B30 -> allcount * sz < 2 ^ 62 ->
+Lemma gen_a2a_offsets i shift sz allcount request : 0 <= i -> 0 <= shift <= 30 -> (2 * i + 1) * 2 ^ shift <= B30 -> 0 <= sz -> (2 * i + 1) * 2 ^ shift * sz < 2 ^ 64 ->
+  0 <= allcount <= B30 -> allcount * sz < 2 ^ 64 ->
   a2a_recv_offset i sz = i * sz /\ a2a_self_offset i sz = i * sz /\
   a2a_combine_send_offset i shift sz = ((2 * i + 1) * 2 ^ shift) * sz /\ a2a_combine_recv_offset i shift sz = ((2 * i) * 2 ^ shift) * sz /\
   a2a_alldata_bytes allcount sz = allcount * sz /\ a2a_requests request allcount = (request, request + allcount).
 Proof.
+  (* size_t arithmetic: exact as long as the products stay below 2^64 - the whole range of size_t, nothing is given away *)
   intros Hi Hs Hb Hsz Hbb Ha Hab.
   unfold a2a_recv_offset, a2a_self_offset, a2a_combine_send_offset, a2a_combine_recv_offset, a2a_alldata_bytes, a2a_requests, shl. cbv zeta.
-  assert (1 <= 2 ^ shift) by (apply (Z.pow_le_mono_r 2 0 shift); lia).
-  assert (i < 2 ^ 62 /\ i * sz < 2 ^ 62) by (unfold B30 in *; nia).
-  rewrite (s32_sm (2 * i)) by (unfold B30 in *; nia). rewrite (s32_sm (2 * i + 1)) by (unfold B30 in *; nia).
-  rewrite (s32_sm ((2 * i + 1) * 2 ^ shift)) by lia. rewrite (s32_sm (2 * i * 2 ^ shift)) by (unfold B30 in *; nia).
-  rewrite (u64_sm i) by lia. rewrite (u64_sm (i * sz)) by lia.
-  rewrite (u64_sm ((2 * i + 1) * 2 ^ shift)) by (unfold B30 in *; nia). rewrite (u64_sm (2 * i * 2 ^ shift)) by (unfold B30 in *; nia).
-  rewrite (u64_sm ((2 * i + 1) * 2 ^ shift * sz)) by nia. rewrite (u64_sm (2 * i * 2 ^ shift * sz)) by nia.
-  rewrite (u64_sm allcount) by (unfold B30 in *; lia). rewrite Z.mul_1_r. rewrite !(u64_sm (allcount * sz)) by lia.
+  assert (H2s : 1 <= 2 ^ shift) by (apply (Z.pow_le_mono_r 2 0 shift); lia).
+  assert (H64 : 2 ^ 64 = 18446744073709551616) by reflexivity.
+  assert (HB : B30 = 1073741824) by reflexivity.
+  assert (Hi30 : 2 * i + 1 <= B30) by nia.
+  assert (Hisz : 0 <= i * sz < 2 ^ 64) by nia.
+  rewrite (s32_sm (2 * i)) by lia. rewrite (s32_sm (2 * i + 1)) by lia.
+  rewrite (s32_sm ((2 * i + 1) * 2 ^ shift)) by lia. rewrite (s32_sm (2 * i * 2 ^ shift)) by nia.
+  rewrite (u64_ex i) by lia. rewrite (u64_ex (i * sz)) by exact Hisz.
+  rewrite (u64_ex ((2 * i + 1) * 2 ^ shift)) by lia. rewrite (u64_ex (2 * i * 2 ^ shift)) by nia.
+  rewrite (u64_ex ((2 * i + 1) * 2 ^ shift * sz)) by nia. rewrite (u64_ex (2 * i * 2 ^ shift * sz)) by nia.
+  rewrite (u64_ex allcount) by lia. rewrite Z.mul_1_r. rewrite !(u64_ex (allcount * sz)) by nia.
   repeat split; reflexivity.
 Qed.
 
@@ -235,3 +241,234 @@ Proof. repeat split; reflexivity. Qed.
 
 Lemma gen_datasize count ts : 0 <= count < 2 ^ 31 -> 0 <= ts < 2 ^ 31 -> rec_datasize count ts = count * ts.
 Proof. intros Hc Ht. unfold rec_datasize. cbv zeta. rewrite (u64_sm count) by lia. apply u64_sm. nia. Qed.
+
+(* =====================================================================================================================================
+   WHOLE BUFFERS.  The user function is handed the whole buffers with the caller's count and datatype at every tree node; every message
+   carries the whole buffer (datasize bytes); nothing in between touches count, data or datatype (groups_C03.py: no_writes).
+   Pointers are integers; datasize = count * sizeof (datatype) (gen_datasize).  Since the repair of F-C03e every message is
+   (count, datatype) - the caller's int count and the caller's datatype, NO size guard; what remains of size arithmetic is size_t
+   (datasize, the buffers alldata / peerdata, the offsets i * datasize): exact below 2^64, the whole range of the type (gen_sizes_exact).
+   ===================================================================================================================================== *)
+Lemma gen_rec_combine_args myrank peer data peerdata sz count dt :
+  rec_combine_args myrank peer data peerdata sz count dt =
+  if myrank <? peer then (1, peerdata, data, count, dt, 0, 0, 0, 0, 0, 0, 0, 0, 0)
+  else (0, 0, 0, 0, 0, 1, data, peerdata, count, dt, 1, data, peerdata, sz).
+Proof. unfold rec_combine_args. destruct (myrank <? peer); reflexivity. Qed.
+
+(* every level works on the same buffer with the same count and datatype *)
+Lemma gen_bufs data count dt :
+  rec_recurse_bufs data count dt = (data, count, dt) /\ rec_a2a_bufs data count dt = (data, count, dt) /\
+  dispatch_bufs data count dt = (data, count, dt).
+Proof. repeat split; reflexivity. Qed.
+
+(* the four messages of the recursion: Recv into peerdata, Send back / Send / Recv back on data, always `count` items of `datatype`
+   (for EVERY count and datatype: the arguments are the function's parameters); peerdata has datasize bytes *)
+Lemma gen_rec_msg_bufs data peerdata count dt sz : 0 <= sz < 2 ^ 64 ->
+  (rec_msg1_buf data peerdata, rec_msg1_count count, rec_msg1_type dt) = (peerdata, count, dt) /\
+  (rec_msg2_buf data peerdata, rec_msg2_count count, rec_msg2_type dt) = (data, count, dt) /\
+  (rec_msg3_buf data peerdata, rec_msg3_count count, rec_msg3_type dt) = (data, count, dt) /\
+  (rec_msg4_buf data peerdata, rec_msg4_count count, rec_msg4_type dt) = (data, count, dt) /\
+  rec_peerdata_bytes sz = sz.
+Proof.
+  intros H. unfold rec_peerdata_bytes. rewrite Z.mul_1_r, u64_ex by exact H. repeat split; reflexivity.
+Qed.
+
+(* ---------- the WHOLE body of the posting loop of sc_reduce_alltoall -------------------------------------------------------------------
+   outputs: memcpy (called, dst, src, n) | Irecv (called, buf, count, datatype, source, tag, comm, request) | Isend (the same) |
+   rrequest[i], srequest[i] after the turn (r0 / s0: untouched by an assignment - the Irecv / Isend writes its request there) *)
+Lemma gen_a2a_post_body m level i target myrank P (doall : bool) alldata data sz rreq sreq comm tag count dt ri si r0 s0 :
+  0 <= i <= B30 -> 0 <= sz -> i * sz < 2 ^ 64 ->
+  let peer := sc_search_bias m level i target in
+  let slot := alldata + i * sz in
+  let null := a2a_request_null in
+  a2a_post_body m level i target myrank P (b2z doall) alldata data sz rreq sreq comm tag count dt ri si r0 s0 =
+  if peer =? myrank then (1, slot, data, sz, 0, 0, 0, 0, 0, 0, 0, 0, 0, 0, 0, 0, 0, 0, 0, 0, null, null)
+  else if peer <? P then
+    if doall then (0, 0, 0, 0, 1, slot, count, dt, peer, tag, comm, rreq + i, 1, data, count, dt, peer, tag, comm, sreq + i, r0, s0)
+    else (0, 0, 0, 0, 1, slot, count, dt, peer, tag, comm, rreq + i, 0, 0, 0, 0, 0, 0, 0, 0, r0, null)
+  else (0, 0, 0, 0, 0, 0, 0, 0, 0, 0, 0, 0, 0, 0, 0, 0, 0, 0, 0, 0, null, null).
+Proof.
+  intros Hi Hsz His. cbv zeta. unfold a2a_post_body, a2a_request_null. cbv zeta. rewrite z2b_b2z.
+  assert (Hi64 : 0 <= i < 2 ^ 64) by (unfold B30 in Hi; change (2 ^ 30) with 1073741824 in Hi; change (2 ^ 64) with 18446744073709551616; lia).
+  rewrite (u64_ex i) by exact Hi64. rewrite (u64_ex (i * sz)) by nia.
+  destruct (sc_search_bias m level i target =? myrank); [reflexivity|].
+  destruct (sc_search_bias m level i target <? P); [|reflexivity]. destruct doall; reflexivity.
+Qed.
+
+(* one turn of the MODEL's posting loop is decided by the generated body and by nothing else: the slot is filled with the own
+   contribution iff the body calls memcpy; a Recv is issued iff it calls Irecv - from the Irecv's source with the Irecv's tag; a
+   Send of the own data is issued after it iff it calls Isend - to the Isend's destination with the Isend's tag *)
+Lemma gen_a2a_post_step_body P m (doall : bool) target i rest level myrank data sl k alldata dptr sz rreq sreq comm count dt ri si r0 s0 :
+  0 <= i <= B30 -> 0 <= sz -> i * sz < 2 ^ 64 ->
+  a2a_post P m doall target (i :: rest) level myrank data sl k =
+  let '(mc, _, _, _, rc, _, _, _, rpeer, rtag, _, _, sc, _, _, _, speer, stag, _, _, _, _) :=
+    a2a_post_body m level i target myrank P (b2z doall) alldata dptr sz rreq sreq comm c_SC_TAG_REDUCE count dt ri si r0 s0 in
+  if mc =? 1 then a2a_post P m doall target rest level myrank data (supd sl i data) k
+  else if rc =? 1 then
+    recv rpeer rtag (fun v => if sc =? 1 then send speer stag data (a2a_post P m doall target rest level myrank data (supd sl i v) k)
+                              else a2a_post P m doall target rest level myrank data (supd sl i v) k)
+  else a2a_post P m doall target rest level myrank data sl k.
+Proof.
+  intros Hi Hsz His. rewrite (gen_a2a_post_body m level i target myrank P doall alldata dptr sz rreq sreq comm c_SC_TAG_REDUCE count dt ri si r0 s0 Hi Hsz His).
+  cbv zeta. cbn [a2a_post].
+  destruct (sc_search_bias m level i target =? myrank); [reflexivity|].
+  destruct (sc_search_bias m level i target <? P); [|reflexivity]. destruct doall; reflexivity.
+Qed.
+
+(* the header of the posting loop: i = 0, 1, .., allcount - 1 = the index list of the model *)
+Fixpoint gen_post_indices (fuel : nat) (i allcount : Z) : list Z :=
+  match fuel with
+  | O => []
+  | S f => if a2a_post_cond i allcount then i :: gen_post_indices f (a2a_post_next i) allcount else []
+  end.
+
+Lemma gen_post_indices_spec : forall fuel i n, 0 <= i <= n -> n <= B30 -> (Z.to_nat (n - i) < fuel)%nat ->
+  gen_post_indices fuel i n = map (fun k => i + Z.of_nat k) (seq 0 (Z.to_nat (n - i))).
+Proof.
+  induction fuel as [|fuel IH]; intros i n Hi Hn Hf; [lia|]. cbn [gen_post_indices]. unfold a2a_post_cond, a2a_post_next. cbv zeta.
+  destruct (i <? n) eqn:E.
+  - rewrite s32_sm by (unfold B30 in *; lia). rewrite IH by lia.
+    replace (Z.to_nat (n - i)) with (S (Z.to_nat (n - (i + 1)))) by lia. cbn [seq map]. f_equal; [lia|].
+    rewrite <- seq_shift, map_map. apply map_ext. intros k. lia.
+  - replace (Z.to_nat (n - i)) with 0%nat by lia. reflexivity.
+Qed.
+
+Lemma gen_a2a_post_indices level : 0 <= level <= 30 ->
+  gen_post_indices (S (Z.to_nat (a2a_allcount level))) a2a_post_init (a2a_allcount level) = map Z.of_nat (seq 0 (Z.to_nat (2 ^ level))).
+Proof.
+  intros Hl. destruct (gen_a2a_values 0 level 0 0 0 0 Hl ltac:(lia) ltac:(unfold B30; change (2 ^ 30 / 4) with 268435456; lia)) as [_ [E _]].
+  rewrite E. unfold a2a_post_init. cbv zeta.
+  assert (1 <= 2 ^ level <= B30) by (unfold B30; split; [apply (Z.pow_le_mono_r 2 0 level); lia | apply Z.pow_le_mono_r; lia]).
+  rewrite gen_post_indices_spec by lia. rewrite Z.sub_0_r. apply map_ext. intros k. lia.
+Qed.
+
+(* the request array has 2 * allcount entries (of 4 bytes in the build the translator sees): slot i of the first half for the Irecv,
+   slot i of the second half for the Isend (a2a_requests: rrequest = request, srequest = request + allcount); the first Waitall
+   completes the allcount receive requests *)
+Lemma gen_a2a_requests request allcount i : 0 <= allcount <= B30 / 4 ->
+  a2a_request_bytes allcount = (2 * allcount) * 4 /\
+  a2a_wait_recvs allcount (fst (a2a_requests request allcount)) = (1, allcount, request) /\
+  fst (a2a_requests request allcount) + i = request + i /\ snd (a2a_requests request allcount) + i = request + allcount + i.
+Proof.
+  intros Ha. assert (B30 / 4 = 268435456) by reflexivity. unfold a2a_request_bytes, a2a_wait_recvs, a2a_requests. cbv zeta. cbn [fst snd].
+  rewrite s32_sm by (unfold B30; lia). rewrite (u64_sm (2 * allcount)) by (change (2 ^ 62) with 4611686018427387904; lia).
+  rewrite u64_sm by (change (2 ^ 62) with 4611686018427387904; lia). repeat split; reflexivity.
+Qed.
+
+(* after the combination: for allreduce the SEND requests are completed (all allcount of them) BEFORE the result overwrites the send
+   buffer; then memcpy (data, alldata, datasize) - the whole result, slot 0 -; both allocations are freed *)
+Lemma gen_a2a_finish allcount rreq sreq (doall : bool) data alldata sz request mpiret wret :
+  a2a_finish allcount rreq sreq (b2z doall) data alldata sz request mpiret wret =
+  (b2z doall, (if doall then allcount else 0), (if doall then sreq else 0), 1, data, alldata, sz, 1, alldata, 1, request).
+Proof. unfold a2a_finish. cbv zeta. rewrite z2b_b2z. destruct doall; reflexivity. Qed.
+
+(* the reduce_fn call of the combination loops: whole slots, the caller's count and datatype *)
+Lemma gen_a2a_combine_args alldata i shift sz count dt : 0 <= i -> 0 <= shift <= 30 -> (2 * i + 1) * 2 ^ shift <= B30 -> 0 <= sz ->
+  (2 * i + 1) * 2 ^ shift * sz < 2 ^ 64 ->
+  a2a_combine_args alldata i shift sz count dt =
+  (1, alldata + ((2 * i + 1) * 2 ^ shift) * sz, alldata + ((2 * i) * 2 ^ shift) * sz, count, dt).
+Proof.
+  intros Hi Hs Hb Hsz Hbb.
+  destruct (gen_a2a_offsets i shift sz 0 0 Hi Hs Hb Hsz Hbb ltac:(unfold B30; lia) ltac:(change (2 ^ 64) with 18446744073709551616; lia))
+    as [_ [_ [E1 [E2 _]]]].
+  unfold a2a_combine_args. cbv zeta. unfold a2a_combine_send_offset in E1. unfold a2a_combine_recv_offset in E2. rewrite E1, E2. reflexivity.
+Qed.
+
+(* a rank that does not collect sends its whole buffer once, to the target: `count` items of `datatype`, whatever they are *)
+Lemma gen_a2a_send_whole data count dt target comm tag ret :
+  a2a_send_whole data count dt target comm tag ret = (1, data, count, dt, target, tag, comm).
+Proof. reflexivity. Qed.
+
+(* THE BYTES THAT TRAVEL: a message of `count` items of a datatype of `ts` bytes is count * ts bytes = the datasize the buffers are
+   made for - for EVERY count in [0, 2^31) (all non-negative ints) and every element size *)
+Lemma gen_msg_travel_bytes count ts : 0 <= count < 2 ^ 31 -> 0 <= ts < 2 ^ 31 ->
+  rec_msg1_count count * ts = rec_datasize count ts /\ rec_msg2_count count * ts = rec_datasize count ts /\
+  rec_msg3_count count * ts = rec_datasize count ts /\ rec_msg4_count count * ts = rec_datasize count ts.
+Proof. intros Hc Ht. rewrite (gen_datasize count ts Hc Ht). repeat split; reflexivity. Qed.
+
+(* ALL size arithmetic that is left is size_t and exact: for every count in [0, 2^31), every element size up to 16 bytes (long double)
+   and every window of up to 2^28 slots (the code has at most 2^SC_REDUCE_ALLTOALL_LEVEL = 8): datasize < 2^35, every offset and the
+   size of alldata stay below 2^63 - no wrap of the 64-bit arithmetic anywhere *)
+Lemma gen_sizes_exact count ts i shift allcount request : 0 <= count < 2 ^ 31 -> 0 <= ts <= 16 -> 0 <= i -> 0 <= shift <= 30 ->
+  (2 * i + 1) * 2 ^ shift < allcount -> allcount <= 2 ^ 28 ->
+  let sz := rec_datasize count ts in
+  sz = count * ts /\ 0 <= sz < 2 ^ 35 /\ allcount * sz < 2 ^ 63 /\
+  a2a_recv_offset i sz = i * sz /\ a2a_self_offset i sz = i * sz /\
+  a2a_combine_send_offset i shift sz = ((2 * i + 1) * 2 ^ shift) * sz /\ a2a_combine_recv_offset i shift sz = ((2 * i) * 2 ^ shift) * sz /\
+  a2a_alldata_bytes allcount sz = allcount * sz /\ rec_peerdata_bytes sz = sz /\ a2a_requests request allcount = (request, request + allcount).
+Proof.
+  intros Hc Ht Hi Hs Hlt Ha. cbv zeta. rewrite (gen_datasize count ts Hc ltac:(change (2 ^ 31) with 2147483648; lia)).
+  assert (H31 : 2 ^ 31 = 2147483648) by reflexivity. assert (H35 : 2 ^ 35 = 34359738368) by reflexivity.
+  assert (H28 : 2 ^ 28 = 268435456) by reflexivity. assert (H63 : 2 ^ 63 = 9223372036854775808) by reflexivity.
+  assert (H64 : 2 ^ 64 = 18446744073709551616) by reflexivity.
+  assert (Hsz : 0 <= count * ts < 2 ^ 35) by nia.
+  assert (H2s : 1 <= 2 ^ shift) by (apply (Z.pow_le_mono_r 2 0 shift); lia).
+  assert (Hall : allcount * (count * ts) < 2 ^ 63) by nia.
+  destruct (gen_a2a_offsets i shift (count * ts) allcount request Hi Hs ltac:(unfold B30; change (2 ^ 30) with 1073741824; lia) ltac:(lia)
+              ltac:(nia) ltac:(unfold B30; change (2 ^ 30) with 1073741824; nia) ltac:(lia)) as [E1 [E2 [E3 [E4 [E5 E6]]]]].
+  destruct (gen_rec_msg_bufs 0 0 0 0 (count * ts) ltac:(lia)) as [_ [_ [_ [_ E7]]]].
+  repeat split; try assumption; lia.
+Qed.
+
+(* ---------- entry points -------------------------------------------------------------------------------------------------------------- *)
+(* the reduction works in recvbuf, which starts as a copy of the whole sendbuf *)
+Lemma gen_dispatch_copy sendbuf recvbuf count ts : 0 <= count < 2 ^ 31 -> 0 <= ts < 2 ^ 31 ->
+  dispatch_copy sendbuf recvbuf count ts = (1, recvbuf, sendbuf, count * ts).
+Proof.
+  intros Hc Ht. unfold dispatch_copy. cbv zeta. pose proof (gen_datasize count ts Hc Ht) as E. unfold rec_datasize in E. cbv zeta in E.
+  rewrite E. reflexivity.
+Qed.
+
+(* target == -1 exactly in the two allreduce entry points; buffers, count, datatype, operation and communicator are handed down unchanged *)
+Lemma gen_entries sendbuf recvbuf count dt op target comm :
+  entry_allreduce sendbuf recvbuf count dt op comm = (sendbuf, recvbuf, count, dt, op, -1, comm) /\
+  entry_reduce sendbuf recvbuf count dt op target comm = (sendbuf, recvbuf, count, dt, op, target, comm) /\
+  entry_allreduce_custom sendbuf recvbuf count dt comm = (sendbuf, recvbuf, count, dt, -1, comm) /\
+  entry_reduce_custom sendbuf recvbuf count dt target comm = (sendbuf, recvbuf, count, dt, target, comm) /\
+  entry_reduce_dispatch sendbuf recvbuf count dt target comm = (sendbuf, recvbuf, count, dt, target, comm).
+Proof. repeat split; reflexivity. Qed.
+
+(* sc_reduce_dispatch: MAX -> sc_reduce_max, MIN -> sc_reduce_min, SUM -> sc_reduce_sum *)
+Lemma gen_op_table : reduce_op_table = [(0, 0); (1, 1); (2, 2)].
+Proof. reflexivity. Qed.
+
+(* ---------- how often the operator is applied ------------------------------------------------------------------------------------------
+   treeval is polymorphic in the buffer type: read with T = Z, every input 0 and f s r = r + s + 1 it counts the applications of the
+   operator in the tree.  Exactly P - 1: one per tree node with two existing children, none anywhere else. *)
+Lemma count_fold : forall l a, (forall b, In b l -> b = 0) ->
+  fold1 Z (fun s r => r + s + 1) a l = a + Z.of_nat (length l).
+Proof.
+  induction l as [|b l IH]; intros a H; cbn [fold1 length]; [lia|].
+  rewrite IH by (intros c Hc; apply H; right; exact Hc). unfold op. rewrite (H b (or_introl eq_refl)). lia.
+Qed.
+
+Theorem reduce_applications P : 1 <= P -> reduce_result Z (fun s r => r + s + 1) P (fun _ => 0) = P - 1.
+Proof.
+  intros HP. rewrite reduce_fold by (try exact HP; intros a b c; unfold op; lia).
+  rewrite count_fold.
+  - unfold vals. rewrite map_length, seq_length. lia.
+  - intros b Hb. unfold vals in Hb. apply in_map_iff in Hb. destruct Hb as [k [E _]]. symmetry. exact E.
+Qed.
+
+(* the same for every node of the tree: (number of existing ranks under the node) - 1 applications *)
+Theorem node_applications P d br M : 0 <= br -> br * 2 ^ Z.of_nat d < P -> Z.of_nat d <= M ->
+  treeval Z (fun s r => r + s + 1) P M (fun _ => 0) d br = Z.of_nat (nleaves P d br - 1).
+Proof.
+  intros Hb Hex HM. rewrite (stdval_fold Z (fun s r => r + s + 1) ltac:(intros a b c; unfold op; lia) P (fun _ => 0) d br (Z.of_nat d) eq_refl Hb Hex M HM).
+  rewrite count_fold.
+  - unfold vals. rewrite map_length, seq_length. lia.
+  - intros b Hb'. unfold vals in Hb'. apply in_map_iff in Hb'. destruct Hb' as [k [E _]]. symmetry. exact E.
+Qed.
+
+(* ---------- F-C03e, REPAIRED (fix: the seven point-to-point calls take (count, datatype) instead of (datasize, sc_MPI_BYTE)) -------------
+   Regression guard about the OLD call arguments: the byte count datasize (size_t) went through the int count of MPI_Send / Recv /
+   Irecv / Isend, i.e. through s32.  For 2^29 + 1 doubles datasize = 4294967304 and s32 datasize = 8: every message carried 8 bytes,
+   the call returned a wrong sum (observed with Open MPI, 2 ranks: last item 10 instead of 30); for 2^30 shorts s32 datasize is
+   negative (MPI_ERR_COUNT).  The repaired calls carry count * 8 = datasize bytes for the same input.  A revert changes the
+   generated rec_msgK_count / a2a_post_body / a2a_send_whole (free variable datasize instead of count: the group fails). *)
+Theorem gen_msg_bytes_old_refuted :
+  let sz := rec_datasize 536870913 8 in
+  sz = 4294967304 /\ s32 sz = 8 /\ s32 sz <> sz /\
+  s32 (rec_datasize 1073741824 2) = -2147483648 /\
+  rec_msg3_count 536870913 * 8 = sz /\ rec_msg3_count 1073741824 * 2 = rec_datasize 1073741824 2.
+Proof. vm_compute. repeat split; try reflexivity. discriminate. Qed.
